@@ -666,15 +666,25 @@ type memStore struct {
 	r    *vk.Rand
 }
 
+// refusal is what the store answers for I/O at or beyond its end (the offset one block past the data is used by
+// the callers on purpose): a per-request error that the server must send back as the reply to that very request.
+func refusal(off int64) error { return fmt.Errorf("store refuses offset %d", off) }
+
 func (m *memStore) ReadAt(b []byte, off int64) (int, error) {
 	m.mu.Lock()
 	defer m.mu.Unlock()
+	if off+int64(len(b)) > int64(len(m.data)) {
+		return 0, refusal(off)
+	}
 	copy(b, m.data[off:off+int64(len(b))])
 	return len(b), nil
 }
 func (m *memStore) WriteAt(b []byte, off int64) (int, error) {
 	m.mu.Lock()
 	defer m.mu.Unlock()
+	if off+int64(len(b)) > int64(len(m.data)) {
+		return 0, refusal(off)
+	}
 	copy(m.data[off:], b)
 	return len(b), nil
 }
@@ -709,6 +719,8 @@ func e2eScenario(c *ctx, r *vk.Rand) {
 	var wg sync.WaitGroup
 	var next uint64 = 1
 	bad := int32(0)
+	var refused int64
+	var refusedBad atomic.Value
 	for g := 0; g < K; g++ {
 		wg.Add(1)
 		go func(g int) {
@@ -717,6 +729,23 @@ func e2eScenario(c *ctx, r *vk.Rand) {
 			for i := 0; i < per; i++ {
 				blk := rr.Intn(nblocks)
 				buf := make([]byte, 4096)
+				if rr.Chance(4) {
+					// a request the store refuses: its caller - and nobody else - gets the store's error, at once
+					off := int64(nblocks)*4096 + int64(g)*4096
+					t := time.Now()
+					var err error
+					if rr.Bool() {
+						_, err = cl.WriteAt(buf, off)
+					} else {
+						_, err = cl.ReadAt(buf, off)
+					}
+					atomic.AddInt64(&refused, 1)
+					if err == nil || err.Error() != refusal(off).Error() {
+						refusedBad.Store(fmt.Sprintf("a request at offset %d that the store refused with %q returned %v after %v", off, refusal(off), err, time.Since(t)))
+						return
+					}
+					continue
+				}
 				if rr.Chance(50) {
 					v := atomic.AddUint64(&next, 1)
 					for k := 0; k < 4096; k += 8 {
@@ -754,6 +783,11 @@ func e2eScenario(c *ctx, r *vk.Rand) {
 		}(g)
 	}
 	wg.Wait()
+	c.res.Count("e2e_refused_requests", atomic.LoadInt64(&refused))
+	if m := refusedBad.Load(); m != nil {
+		c.fail("e2e:error-reply-not-delivered", m.(string)+" (the error reply did not reach the request that caused it)", nil)
+		return
+	}
 	if bad > 0 {
 		c.fail("e2e:call-failed", "calls through the real rpc server failed without any fault", nil)
 		return
